@@ -10,6 +10,7 @@
    (current_assignment / previous_assignment after __init__) with [init_current claims]. *)
 From Coq Require Import Arith List Bool ZArith.
 From Verif Require Import C14_Assignors C14_Sticky C14_lists C14_rr C14_checkers C14_sticky C15_sticky.
+From Verif Require Import C15_Order C15_order.
 Import ListNotations.
 
 (* what the executor starts from when no partition is claimed twice: the claims, verbatim,
@@ -117,3 +118,15 @@ Example c15_minus_hyps_satisfiable :
   pairs_within_one (drop ppt ms st0) (map fst ms) = true
   /\ exists r, ctl_run ppt ms [] st0 [((0, 1), 0); ((0, 2), 2)] [] false = Some r.
 Proof. simpl. split; [reflexivity|]. eexists. vm_compute. reflexivity. Qed.
+
+
+(* Identical subscriptions, members joined: the candidates for reassignment are listed one per turn, always from a
+   member that holds the most not-yet-listed partitions ([order_ok], checked on the real executor's
+   sorted_partitions in every run).  Along such an order - at every intermediate point of it - every member that
+   has already offered a partition is within one of the heaviest member: old members shed in lock-step, so a
+   partition they shed goes to a lighter (new) member, not to another old member. *)
+Theorem c15_heaviest_first_lockstep : forall counts o1 o2 c x,
+  order_ok counts (o1 ++ o2) = true -> In c o1 -> nth_error (run counts o1) c = Some x ->
+  maxl (run counts o1) <= S x.
+Proof. exact heaviest_first_lockstep_prefix. Qed.
+Print Assumptions c15_heaviest_first_lockstep.
